@@ -44,6 +44,10 @@ pub enum Alt {
     /// like `NonBool`, and the operand columns of the two bits' BoolCheck rows are set to 0
     /// independently of the slot value (the check only binds if those columns are on the bus)
     NonBoolDecoupled { pos: u8 },
+    /// two adjacent bits carry extension-field junk that cancels inside each bit's higher
+    /// coefficients and across the weighted sum: b[pos] -= 2J, b[pos+1] += J, J = t(X - X^2)
+    /// (degree >= 3 circuits; the degree-0 coefficients stay boolean)
+    ExtJunkBits { pos: u8, t: u8 },
     /// one bit flipped (breaks the recomposition identity: must be rejected)
     Flip { pos: u8 },
     /// coefficient j decreased by t, coefficient i increased by t * e_j / e_i (not a base value)
@@ -64,7 +68,7 @@ pub struct Case {
 
 pub const RULE: &str = "decompose_to_bits (full and shortened widths) and decompose_ext_to_base_coeffs (ALU chain, \
 recompose table, recompose/coeff table) of a generated public value x over 7 field configurations x an alternative \
-hint output: canonical (control), bits of limb+p, non-boolean 'bits' with the same weighted sum, a flipped bit, \
+hint output: canonical (control), bits of limb+p, non-boolean 'bits' with the same weighted sum, bits carrying extension-field junk that cancels within each bit and across the sum, a flipped bit, \
 coefficient mass moved between two positions (non-base coefficient, same recomposition), a bumped coefficient; the \
 alternative is propagated through the op list and the forged traces are proven and verified. Oracle: accepted => \
 the hint outputs are the canonical decomposition. Non-trivial = an alternative that differs from the canonical \
@@ -188,6 +192,26 @@ fn check<C: Pv>(c: &Case) -> Report {
             } else {
                 "bits:non-boolean".into()
             };
+        }
+        (What::Bits { .. }, Alt::ExtJunkBits { pos, t }) => {
+            if d < 3 || nbits < 2 {
+                return Report::discard("needs an extension of degree >= 3 and two bits");
+            }
+            let mut k = *pos as usize % (nbits - 1);
+            if (k + 1) % fb == 0 {
+                k = k.saturating_sub(1);
+            }
+            if (k + 1) / fb != k / fb {
+                return Report::discard("no two adjacent bits in one limb");
+            }
+            let t = 1 + *t as u64 % 7;
+            let mut jv = vec![0u64; d];
+            jv[1] = t;
+            jv[2] = p - t;
+            let j = C::ef(&jv);
+            alt[k] = alt[k] - j - j;
+            alt[k + 1] = alt[k + 1] + j;
+            class = "bits:cancelling-extension-junk".into();
         }
         (What::Bits { .. }, Alt::Flip { pos }) => {
             let k = *pos as usize % nbits;
@@ -375,6 +399,7 @@ fn strategy() -> impl Strategy<Value = Case> {
             3 => (0u8..5).prop_map(|limb| Alt::AddP { limb }),
             3 => any::<u8>().prop_map(|pos| Alt::NonBool { pos }),
             3 => any::<u8>().prop_map(|pos| Alt::NonBoolDecoupled { pos }),
+            3 => (any::<u8>(), any::<u8>()).prop_map(|(pos, t)| Alt::ExtJunkBits { pos, t }),
             1 => any::<u8>().prop_map(|pos| Alt::Flip { pos }),
         ],
     )
